@@ -28,6 +28,7 @@ PROP = 'c06'
 BUDGET_S = {'quick': 3600, 'thorough': 14400}
 KWCASE_BOTH = ('statements', 'expressions', 'names')      # families rendered in UPPER and in Capitalised keywords (quick)
 REMARK_FAMILIES = ('statements', 'nesting')            # families laid out with comments holding odd characters (quick)
+JOINED_FAMILIES = ('statements', 'nesting')            # families laid out with statements joined to the end of multi-line tokens (quick)
 
 ASSUMPTIONS = C05.ASSUMPTIONS[2:] + [
     'the statements of a block, the parameters of a call and the clauses of an if are paired with the program by source position, '
@@ -44,6 +45,11 @@ ASSUMPTIONS = C05.ASSUMPTIONS[2:] + [
     'holding form feed, vertical tab, FS, GS, RS, NEL, U+2028, U+2029 and lone carriage returns -- a line ends in "\\n" only, and '
     'columns count from it (every program under the first, every program in one home under the second, every program of the '
     'families %s in another home under the third; thorough: every family, and a fourth with a line break in every gap)' % (REMARK_FAMILIES,),
+    'layout "joined" (every program of the families %s in one home; thorough: every family): a statement starts on the line on which '
+    'a block comment of several lines ends (the comment begun behind the previous statement, on a line of its own, several in a row, '
+    'also in front of the first statement and between the tokens of a statement) or directly behind an `end if;` / `end for;` / '
+    '`end while;` whose two words stand on two lines; line numbers count every "\\n" wherever it stands (inside comments and between '
+    'the two words too) and columns count from the last one' % (JOINED_FAMILIES,),
     'components family: every program of the statement family in one home (rotating; thorough: every home) on the host variant '
     '"components": one system package with three components created in the order twin, own, twin; the four homes and everything '
     'the static description declares belong to the middle one; a twin declares classes with the same key letters and attribute '
@@ -101,6 +107,9 @@ def with_layouts(ctx, tasks):
         # comments holding the characters some tools count as line ends: in the home the other styles leave free
         if ctx.thorough or ts[0]['family'] in REMARK_FAMILIES:
             ts[(n + ctx.seed + 3) % len(ts)]['layouts'].append('remarks')
+        # statements that start on the line on which a multi-line block comment or a split `end\n if` ends
+        if ctx.thorough or ts[0]['family'] in JOINED_FAMILIES:
+            ts[(n + ctx.seed + 2) % len(ts)]['layouts'].append('joined')
     return tasks
 
 
@@ -211,6 +220,8 @@ def run(ctx):
     ctx.require(ctx.n('layout:remarks') >= 1200 and ctx.n('remark_characters') >= 15 * ctx.n('layout:remarks'),
                 'too few programs laid out with comments holding odd characters (%d programs, %d characters)' %
                 (ctx.n('layout:remarks'), ctx.n('remark_characters')))
+    ctx.require(ctx.n('layout:joined') >= 1200, 'too few programs laid out with statements joined to the end of multi-line comments / '
+                'split end keywords (%d)' % ctx.n('layout:joined'))
     ctx.require(ctx.n('family:components') >= 500 and ctx.n('namesake_checks') >= 2 * ctx.n('family:components'),
                 'components family: %d programs, %d data types with a namesake in another component compared' %
                 (ctx.n('family:components'), ctx.n('namesake_checks')))
@@ -311,6 +322,9 @@ def coverage(ctx):
                              read_through=['typed handle', 'self', 'selected', 'loop variable', 'handle assigned from a handle', 'created instance']),
         remarks_layout=dict(families_quick=REMARK_FAMILIES, programs=ctx.n('layout:remarks'),
                             characters=[hex(ord(c)) for c in H.ODD_CHARACTERS + '\r'], characters_placed=ctx.n('remark_characters')),
+        joined_layout=dict(families_quick=JOINED_FAMILIES, programs=ctx.n('layout:joined'), gaps_behind_a_statement=H.JOINED_GAPS,
+                           gaps_inside_a_statement=H.JOINED_INNER, between_end_and_its_second_word=H.JOINED_END,
+                           lead='/* head\n of the action */ '),
         keyword_case=dict(styles_quick=dict(upper='every program spelling a keyword through to the translator',
                                             cap='those of the families %s' % (KWCASE_BOTH,)),
                           styles_thorough='upper, cap, mixed for every such program',
